@@ -111,6 +111,7 @@ def run(ctx, chk, tier):
     # the setters search the object's score arrays (and any per-object copy of them): ascending after every constructor, subclasses included (R01.4)
     from . import c01
     c01.constructor_sorted(ctx, chk)
+    c01.construction_sites(ctx, chk)     # objects the library derives (samples, per-group objects, swaps) claim is_sorted only for ascending arrays
     # lower / higher return a sample score or the one-ulp sentinel: the array that receives the sentinels is floating point (R03.2)
     from . import c03
     c03.sentinel_dtype(ctx, chk)
